@@ -96,6 +96,10 @@ pub fn spec_findings(sp: &Value, trace: bool) -> Vec<Finding> {
         Some("gc-ops") => crate::engine_gc::replay(sp, trace),
         Some("session") => crate::engine_session::replay(sp, trace),
         Some("purity") => crate::engine_purity::replay(sp, trace),
+        Some("miri") => {
+            let (_, _, v) = crate::checks::miri_adjunct("", sp["seed"].as_u64().unwrap_or(0), sp["part"].as_str().unwrap_or("gc"), sp["n"].as_u64().unwrap_or(4));
+            v.map(|v| vec![Finding { class: v.class, key: v.key, detail: v.detail }]).unwrap_or_default()
+        }
         _ => Vec::new(),
     }
 }
